@@ -158,6 +158,7 @@ func outBehaviours() []string {
 	for _, target := range []string{"same-https", "same-http", "other-http"} {
 		out = append(out, "rr302-"+target)
 	}
+	out = append(out, "r302-same-HTTP")
 	return out
 }
 
@@ -192,12 +193,17 @@ func buildOutCases() []outCase {
 	for _, strict := range []bool{true, false} {
 		for _, via := range names {
 			for _, host := range hostOrder() {
-				for _, scheme := range []string{"https", "http"} {
-					if via == "didweb.Resolve" && (scheme == "http" || host == "ip" || host == "ipv6" || host == "link-local" || host == "loopback") {
+				schemes := []string{"https", "http"}
+				if host == "origin" {
+					// the scheme as a remote party may spell it
+					schemes = append(schemes, "HTTP", "Http", "hTTP")
+				}
+				for _, scheme := range schemes {
+					if via == "didweb.Resolve" && (scheme != "https" || host == "ip" || host == "ipv6" || host == "link-local" || host == "loopback") {
 						continue // a did:web identifier cannot express them (C18 judges the identifier grammar)
 					}
 					for _, b := range outBehaviours() {
-						if host != "origin" && b != "ok" && b != "r302-same-http" {
+						if (host != "origin" || (scheme != "https" && scheme != "http")) && b != "ok" && b != "r302-same-http" {
 							continue
 						}
 						out = append(out, outCase{Strict: strict, Via: via, Scheme: scheme, Host: host, Behaviour: b})
@@ -253,8 +259,8 @@ var acceptedWhenPlain = map[string]bool{"client.New:GET": true, "client.New:POST
 
 func judgeOut(r *ev.Run, c outCase, res outResult) {
 	r.Eval(ev.Key(c))
-	firstHopPlain := c.Scheme == "http"
-	toHTTP := strings.HasSuffix(c.Behaviour, "-http")
+	firstHopPlain := strings.EqualFold(c.Scheme, "http")
+	toHTTP := strings.HasSuffix(strings.ToLower(c.Behaviour), "-http")
 	class := "https-only"
 	switch {
 	case firstHopPlain:
@@ -273,7 +279,7 @@ func judgeOut(r *ev.Run, c outCase, res outResult) {
 	if c.Strict && res.PlainHits > 0 {
 		r.Violation("C20|outbound|"+class+"|"+c.Via, fmt.Sprintf("strict mode on: %s sent a request over plain HTTP (%s; requests seen: %v)", c.Via, ev.Key(c), res.Hosts), c)
 	}
-	if !c.Strict && firstHopPlain && c.Behaviour == "ok" && c.Host == "origin" && acceptedWhenPlain[c.Via] && (res.Err != "" || res.PlainHits == 0) {
+	if !c.Strict && c.Scheme == "http" && c.Behaviour == "ok" && c.Host == "origin" && acceptedWhenPlain[c.Via] && (res.Err != "" || res.PlainHits == 0) {
 		r.Violation("C20|outbound|plain-http-nonstrict-refused|"+c.Via, fmt.Sprintf("strict mode off: %s refused a plain-HTTP endpoint: %s", c.Via, res.Err), c)
 	}
 	// the IAM client applies ParsePublicURL(strict) to the endpoints it is given (they come out of remote metadata, request objects
@@ -310,7 +316,7 @@ func sectionOutbound(t *testing.T, r *ev.Run) {
 		}
 		res := runOutCase(c)
 		judgeOut(r, c, res)
-		if c.Behaviour == "r302-same-http" || c.Scheme == "http" {
+		if c.Behaviour == "r302-same-http" || strings.EqualFold(c.Scheme, "http") {
 			r.Sample(map[string]any{"case": c, "error": res.Err, "requests_seen": res.Hosts})
 		}
 	}
